@@ -1,4 +1,4 @@
-import ConcVerif.Proof.Rcu
+import ConcVerif.Proof.RcuAll
 /-! # C14 (rcu part) — reads on rcu_guarded / rcu_list never wait for writers
 
 Read-side operations of the model in `Model/Rcu.lean`: registration (`rcu_read_lock`, performed lazily by
